@@ -326,7 +326,7 @@ def _names_of(text: str) -> frozenset:
     return r
 
 
-def sym_values(max_len: int = 200):
+def sym_values(max_len: int = 200, subst_calls: bool = True):
     """-> (upd, resolve).  `upd` is a PathCond `upd` callback that keeps, per path, the defining
     expression of every plainly assigned local (`val:x=<expr>` with earlier locals substituted);
     `resolve(state, e)` is e with those locals replaced.  A reassignment retracts every value that
@@ -380,7 +380,11 @@ def sym_values(max_len: int = 200):
             if val is not None and not any(isinstance(x, (ast.Await, ast.NamedExpr, ast.Lambda)) for x in ast.walk(val)):
                 try:
                     # a, b = x, y evaluates every right-hand side before any name is bound
-                    text = ast.unparse(_sub(val, vals0 if simultaneous else vals))
+                    use = vals0 if simultaneous else vals
+                    if not subst_calls:
+                        # locals that hold the result of a call (`moof = self.find_atom(..)`) stay names
+                        use = {k: v for k, v in use.items() if '(' not in v}
+                    text = ast.unparse(_sub(val, use))
                 except Exception:       # noqa: BLE001 - not representable, drop the value
                     text = None
                 if text is not None and len(text) <= max_len:
@@ -394,8 +398,13 @@ def sym_values(max_len: int = 200):
                 vals[name] = new
         return facts
 
-    def resolve(state, e: ast.AST) -> ast.AST:
-        return _sub(e, _vals(state[2]))
+    def resolve(state, e: ast.AST, calls: bool = True) -> ast.AST:
+        """e with known locals replaced; calls=False keeps locals that hold the result of a call
+        (`moof = self.find_atom(..)`) as names and resolves only arithmetic / attribute copies"""
+        vals = _vals(state[2])
+        if not calls or not subst_calls:
+            vals = {k: v for k, v in vals.items() if '(' not in v}
+        return _sub(e, vals)
 
     def decide(test: ast.AST, facts):
         """a comparison of integer / string / None constants once the known locals are substituted"""
